@@ -95,6 +95,7 @@ pub fn gen_sem_case(t: &mut Tape, o: SemOpts) -> SemCase {
     }
     if o.c09_domain {
         p.no_intermediate = true;
+        p.dynamic_dims = true;
         p.components = false;
         p.templates.clear();
         templates.clear();
